@@ -12,14 +12,14 @@ CLOSE = {')', ']', '}'}
 
 
 class Fn:
-    __slots__ = ('name', 'modpath', 'impl', 'trait_decl', 'attrs', 'sig', 'body', 'has_body', 'start', 'end', 'quals')
+    __slots__ = ('name', 'modpath', 'impl', 'trait_decl', 'attrs', 'sig', 'body', 'has_body', 'start', 'end', 'quals', 'outer', 'hoisted')
 
     def __repr__(self):
         return f"Fn({'::'.join(self.modpath)} | {self.impl} | {self.name})"
 
 
 class Other:
-    __slots__ = ('kind', 'name', 'modpath', 'impl', 'tokens', 'attrs')
+    __slots__ = ('kind', 'name', 'modpath', 'impl', 'tokens', 'attrs', 'outer')
 
 
 def match_close(toks, i):
@@ -115,7 +115,11 @@ def parse_items(toks, i, end, modpath, impl, fns, others):
                 f.has_body = False
                 i = j + 1
             f.end = i
+            f.outer = None
+            f.hoisted = 0
             fns.append(f)
+            if f.has_body:
+                hoist_nested(f, fns, others)
         elif t == 'mod':
             name = toks[i + 1]
             if toks[i + 2] == ';':
@@ -170,6 +174,7 @@ def parse_items(toks, i, end, modpath, impl, fns, others):
             o.impl = impl
             o.tokens = toks[s0:j]
             o.attrs = attrs
+            o.outer = None
             others.append(o)
             i = j
             # tuple struct: `struct X(..);` consumed by `;` rule. `struct X {..}` by block rule.
@@ -186,3 +191,99 @@ def parse_expansion(text):
     fns, others = [], []
     parse_items(toks, 0, len(toks), [], None, fns, others)
     return fns, others
+
+
+def outer_key(f):
+    """name used as key prefix for items nested in fn f"""
+    if f.impl is None:
+        base = '::'.join(f.modpath)
+    else:
+        h = f.impl.split(' ')
+        i = 1
+        if h[i] == '<':
+            d = 0
+            while True:
+                if h[i] == '<':
+                    d += 1
+                elif h[i] == '>':
+                    d -= 1
+                    if d == 0:
+                        break
+                i += 1
+            i += 1
+        base = h[i] if 'for' not in h else 'impl(' + ''.join(h[i:]) + ')'
+    return (f.outer + '::' if f.outer else '') + base + '::' + f.name
+
+
+def hoist_nested(f, fns, others):
+    """R7: items declared inside a fn body (struct / impl / fn) are lifted out of the body and
+    registered as items of their own (outer = key of the enclosing fn); a block-local
+    `const X: T = e;` becomes `let X: T = e;`."""
+    b = f.body
+    out = []
+    i = 1
+    n = len(b) - 1
+    depth = 0
+    out.append(b[0])
+    nested_f, nested_o = [], []
+    okey = None
+    while i < n:
+        t = b[i]
+        at_stmt = b[i - 1] in (';', '{', '}') or (out and out[-1] in (';', '{', '}'))
+        if at_stmt:
+            # attributes + item keyword lookahead
+            j = i
+            while b[j] == '#' and b[j + 1] == '[':
+                j = match_close(b, j + 1) + 1
+            k = j
+            if b[k] == 'pub':
+                k += 1
+                if b[k] == '(':
+                    k = match_close(b, k) + 1
+            q = k
+            while b[q] in ('const', 'unsafe') and b[q + 1] in ('fn', 'unsafe', 'const', 'impl'):
+                q += 1
+            kw = b[q]
+            if kw in ('struct', 'impl', 'fn', 'enum') and not (kw == 'fn' and b[q + 1] == '('):
+                if kw in ('struct', 'enum'):
+                    e = _skip_to_semi_or_block(b, q)
+                elif kw == 'impl':
+                    e = q
+                    while b[e] != '{':
+                        e += 1
+                    e = match_close(b, e) + 1
+                else:
+                    e = q
+                    while b[e] != '{':
+                        if b[e] in ('(', '['):
+                            e = match_close(b, e) + 1
+                        else:
+                            e += 1
+                    e = match_close(b, e) + 1
+                if okey is None:
+                    okey = outer_key(f)
+                nf, no = [], []
+                parse_items(b, i, e, list(f.modpath), None, nf, no)
+                for x in nf:
+                    if x.outer is None:
+                        x.outer = okey
+                for x in no:
+                    if x.outer is None:
+                        x.outer = okey
+                nested_f += nf
+                nested_o += no
+                f.hoisted += 1
+                i = e
+                continue
+            if kw == 'const' and b[q + 1] not in ('fn', 'unsafe') and b[q + 2] == ':' and q == i:
+                out.append('let')
+                f.hoisted += 1
+                i = q + 1
+                continue
+        out.append(t)
+        i += 1
+    out.append(b[-1])
+    if f.hoisted:
+        f.body = out
+        fns.extend(nested_f)
+        others.extend(nested_o)
